@@ -154,7 +154,7 @@ fn u2f_workload(rep: &mut Report, seed: u64, n: usize) {
         let rig = crate::util::Rig::ok(crate::collab::Disc::Full);
         let mut auth = rig.auth(Default::default());
         let app = rng.arr32();
-        let handle = rng.bytes(rng.clone().range(1, 64));
+        let handle = rng.bytes(*rng.clone().pick(&[0usize, 0, 1, 16, 32, 48, 64, 255]));
         let case = json!({"index": 1_000_000 + k, "op": "u2f"});
         let reg = catch(|| block_on(auth.register(u2f::RegisterRequest { challenge: rng.arr32(), application: app }, &handle)));
         let Ok(Ok(resp)) = reg else { continue };
